@@ -298,7 +298,7 @@ Definition py_isinstance (t : pty) (c : pclass) : bool :=
   end.
 
 Inductive mtarget : Type := TgtC | TgtCpp | TgtPy.
-Inductive mkey : Type := KExtentBytes | KBufferBytes | KCap | KUnionCount | KPortId | KFullName | KConst.
+Inductive mkey : Type := KExtentBytes | KBufferBytes | KCap | KUnionCount | KPortId | KFullName | KConst | KSvcPortId.
 Record export : Type := { ex_tgt : mtarget; ex_key : mkey; ex_exp : mexp }.
 
 (* a decimal floating constant rounds to a finite double iff its magnitude is below 2^1024 - 2^970 (half an ulp above DBL_MAX);
